@@ -1,11 +1,17 @@
-"""Generate Verus spec functions (decoder / encoder) from an independent layout table.
+"""Generate Verus spec functions (decoder / encoder) and their inverse lemmas from an
+independent layout table.
 
-The tables in contracts/layouts/*.json are typed in from the Cisco format description, not from
-the code.  `dec` reads each field at its table offset; `enc` concatenates the big-endian images
-in table order.  The header decoder takes the bytes *after* the 2-byte version field (that is what
-the sub-parser receives), hence the `- 2`.
+The tables in contracts/layouts/*.json are typed in from the Cisco / RFC format descriptions,
+not from the code.  `dec` reads each field at its table offset; `enc` concatenates the big-endian
+images in table order.  For a part with "skip": n the decoder takes the bytes *after* the first n
+bytes of the part (the 2-byte version field is consumed by the dispatcher before the sub-parser
+runs); those bytes belong to a "const" field that the decoder injects and the encoder emits.
+The lemmas (enc_len, enc_dec, enc_inj) are *proved* by Verus; the generator only writes the
+proof steps (one join / split per field), so a wrong table cannot make them pass.
 """
-import json, os
+import json
+import os
+
 V = os.path.dirname(os.path.dirname(os.path.abspath(__file__)))
 
 
@@ -24,7 +30,7 @@ def _rd(ty, off):
 def _wr(ty, expr):
     if ty == "u8":
         return "seq![%s]" % expr
-    if ty == "u16":
+    if ty in ("u16", "const"):
         return "enc16(%s)" % expr
     if ty == "u32":
         return "enc32(%s)" % expr
@@ -33,39 +39,145 @@ def _wr(ty, expr):
     raise ValueError(ty)
 
 
-def gen(name):
-    L = json.load(open(os.path.join(V, "contracts", "layouts", name + ".json")))
-    ver = L["version"]
-    out = ["// generated by tools/layouts.py from contracts/layouts/%s.json -- %s" % (name, L["_source"]), "verus! {"]
-    for part, shift in (("header", 2), ("record", 0)):
-        P = L[part]
-        st = P["struct"]
-        pre = "%s_%s" % (name, part)
-        out.append("pub open spec fn %s_size() -> int { %d }" % (pre, P["size"] - shift))
-        fields = []
-        encs = []
-        for fname, off, w, ty in P["fields"]:
-            if ty == "const":
-                fields.append("%s: %d" % (fname, ver))
-                if shift == 0:
-                    encs.append("enc16(%d)" % ver)
-                else:
-                    encs.append("/*version*/ enc16(h.%s)" % fname)
-            elif ty.startswith("proto:"):
-                fields.append("%s: proto_of(b[o + %d])" % (fname, off - shift))
+def gen_part(name, part, P, ver, lemmas=True, append=False):
+    st = P["struct"]
+    shift = P.get("skip", 0)
+    pre = "%s_%s" % (name, part)
+    size = P["size"]
+    out = []
+    out.append("pub open spec fn %s_size() -> int { %d }" % (pre, size - shift))
+    fields = []
+    enc_fields = []   # (fname, off_in_enc, width, ty)
+    for fname, off, w, ty in P["fields"]:
+        if ty == "const":
+            fields.append("%s: %d" % (fname, ver))
+            enc_fields.append((fname, off, w, "const"))
+        elif ty.startswith("derived:"):
+            fields.append("%s: %s(b[o + %d])" % (fname, ty.split(":")[1], off - shift))
+        else:
+            fields.append("%s: %s" % (fname, _rd(ty, off - shift)))
+            enc_fields.append((fname, off, w, ty))
+    out.append("/// %s of `%s` read from `b` at offset `o`%s" % (
+        part, name, " (o points just after the %d skipped bytes)" % shift if shift else ""))
+    out.append("#[verifier::opaque]\npub open spec fn %s_dec(b: Seq<u8>, o: int) -> %s {\n    %s {\n        %s,\n    }\n}" % (
+        pre, st, st, ",\n        ".join(fields)))
+    encs = [_wr(ty, "h.%s" % f) for f, off, w, ty in enc_fields]
+    out.append("/// wire image of a %s, fields in table order" % part)
+    out.append("pub open spec fn %s_enc(h: %s) -> Seq<u8> {\n    %s\n}" % (pre, st, "\n    + ".join(encs)))
+
+    # ---- partial sums helper text
+    def sums(var):
+        lines = []
+        for i, (f, off, w, ty) in enumerate(enc_fields):
+            lines.append("    let %se%d = %s;" % (var, i, _wr(ty, "%s.%s" % (var, f))))
+            if ty == "ipv4":
+                lines.append("    assert(%se%d.len() == 4);" % (var, i))
+            if i == 0:
+                lines.append("    let %ss0 = %se0;" % (var, var))
             else:
-                fields.append("%s: %s" % (fname, _rd(ty, off - shift)))
-                encs.append(_wr(ty, "h.%s" % fname))
-        out.append("/// %s of a V%d packet read from `b` at offset `o` (%s)" % (
-            part, ver, "o points just after the version field" if shift else "o points at the record"))
-        out.append("#[verifier::opaque]\npub open spec fn %s_dec(b: Seq<u8>, o: int) -> %s {\n    %s {\n        %s,\n    }\n}" % (
-            pre, st, st, ",\n        ".join(fields)))
-        out.append("/// wire image of a %s, fields in table order%s" % (part, " (including the version field)" if shift else ""))
-        out.append("pub open spec fn %s_enc(h: %s) -> Seq<u8> {\n    %s\n}" % (pre, st, "\n    + ".join(encs)))
+                lines.append("    let %ss%d = %ss%d + %se%d;" % (var, i, var, i - 1, var, i))
+            lines.append("    assert(%ss%d.len() == %d);" % (var, i, off + w))
+        return lines
+
+    n = len(enc_fields)
+    if append:
+        # acc + e0 + e1 + ... (left-assoc, as produced by successive extend_from_slice) == acc + enc(h)
+        lines = ["    broadcast use axiom_ipv4_inj;"] + sums("h")
+        lhs = "acc"
+        for i in range(n):
+            lhs = "%s + he%d" % (lhs, i)
+            if i == 0:
+                lines.append("    let t0 = acc + he0;")
+                lines.append("    assert(t0 == acc + hs0);")
+            else:
+                lines.append("    let t%d = t%d + he%d;" % (i, i - 1, i))
+                lines.append("    assert(t%d =~= acc + hs%d);" % (i, i))
+        lines.append("    assert(%s_enc(h) == hs%d);" % (pre, n - 1))
+        full = "acc + " + " + ".join(_wr(ty, "h.%s" % f) for f, off, w, ty in enc_fields)
+        out.append("pub proof fn lemma_%s_enc_append(acc: Seq<u8>, h: %s)\n    ensures %s == acc + %s_enc(h),\n{\n%s\n}" % (
+            pre, st, full, pre, "\n".join(lines)))
+    if not lemmas:
+        return out
+    # ---- enc_len
+    out.append("pub proof fn lemma_%s_enc_len(h: %s)\n    ensures %s_enc(h).len() == %d,\n{\n    broadcast use axiom_ipv4_inj;\n%s\n    assert(%s_enc(h) == hs%d);\n}" % (
+        pre, st, pre, size, "\n".join(sums("h")), pre, n - 1))
+    # ---- enc_dec
+    lines = ["    reveal(%s_dec);" % pre, "    broadcast use axiom_ipv4_octets;", "    let h = %s_dec(b, o);" % pre]
+    if shift:
+        lines.append("    let c = %s;" % "enc16(%d)" % ver)
+        lines.append("    let w = c + b.subrange(o, o + %d);" % (size - shift))
+        target = "w"
+        base = "w"
+        boff = lambda off: "%d" % off          # offsets inside w
+        lines.append("    assert(w.len() == %d);" % size)
+    else:
+        base = "b"
+        boff = lambda off: "o + %d" % off
+    for i, (f, off, w_, ty) in enumerate(enc_fields):
+        e = _wr(ty, "h.%s" % f)
+        lines.append("    let e%d = %s;" % (i, e))
+        if ty == "const":
+            lines.append("    assert(e%d =~= %s.subrange(%s, %s));" % (i, base, boff(off), boff(off + w_)))
+        else:
+            src_off = "o + %d" % (off - shift)
+            if ty == "u16":
+                lines.append("    lemma_enc16(b, %s);" % src_off)
+            elif ty in ("u32", "ipv4"):
+                lines.append("    lemma_enc32(b, %s);" % src_off)
+            lines.append("    assert(e%d =~= b.subrange(%s, %s + %d));" % (i, src_off, src_off, w_))
+            if shift:
+                lines.append("    assert(b.subrange(%s, %s + %d) =~= w.subrange(%d, %d));" % (src_off, src_off, w_, off, off + w_))
+        if i == 0:
+            lines.append("    let s0 = e0;")
+            lines.append("    assert(s0 == %s.subrange(%s, %s));" % (base, boff(0), boff(off + w_)))
+        else:
+            lines.append("    let s%d = s%d + e%d;" % (i, i - 1, i))
+            lines.append("    lemma_seq_join(%s, %s, %s, %s);" % (base, boff(0), boff(off), boff(off + w_)))
+            lines.append("    assert(s%d == %s.subrange(%s, %s));" % (i, base, boff(0), boff(off + w_)))
+    lines.append("    assert(%s_enc(h) == s%d);" % (pre, n - 1))
+    if shift:
+        lines.append("    assert(w.subrange(0, %d) =~= w);" % size)
+        ens = "%s_enc(%s_dec(b, o)) == enc16(%d) + b.subrange(o, o + %d)" % (pre, pre, ver, size - shift)
+    else:
+        ens = "%s_enc(%s_dec(b, o)) == b.subrange(o, o + %d)" % (pre, pre, size)
+    out.append("pub proof fn lemma_%s_enc_dec(b: Seq<u8>, o: int)\n    requires 0 <= o, o + %d <= b.len(),\n    ensures %s,\n{\n%s\n}" % (
+        pre, size - shift, ens, "\n".join(lines)))
+    # ---- enc_inj
+    lines = ["    broadcast use axiom_ipv4_inj;"] + sums("x") + sums("y")
+    lines.append("    assert(%s_enc(x) == xs%d);" % (pre, n - 1))
+    lines.append("    assert(%s_enc(y) == ys%d);" % (pre, n - 1))
+    for i in range(n - 1, -1, -1):
+        f, off, w_, ty = enc_fields[i]
+        if i > 0:
+            lines.append("    lemma_seq_split_eq(xs%d, xe%d, ys%d, ye%d);" % (i - 1, i, i - 1, i))
+        else:
+            lines.append("    assert(xe0 == ye0);")
+        if ty in ("u16", "const"):
+            lines.append("    lemma_dec16(x.%s); lemma_dec16(y.%s);" % (f, f))
+        elif ty == "u32":
+            lines.append("    lemma_dec32(x.%s); lemma_dec32(y.%s);" % (f, f))
+        elif ty == "u8":
+            lines.append("    assert(xe%d[0] == ye%d[0]);" % (i, i))
+        elif ty == "ipv4":
+            lines.append("    assert(ipv4_of(be32(ipv4_octets(x.%s), 0)) == ipv4_of(be32(ipv4_octets(y.%s), 0)));" % (f, f))
+        lines.append("    assert(x.%s == y.%s);" % (f, f))
+    derived = [f for f, off, w_, ty in P["fields"] if ty.startswith("derived:")]
+    req = ["%s_enc(x) == %s_enc(y)" % (pre, pre)] + ["x.%s == y.%s" % (f, f) for f in derived]
+    out.append("pub proof fn lemma_%s_enc_inj(x: %s, y: %s)\n    requires %s,\n    ensures x == y,\n{\n%s\n}" % (
+        pre, st, st, ", ".join(req), "\n".join(lines)))
+    return out
+
+
+def gen(name, lemmas=False, append=False):
+    L = json.load(open(os.path.join(V, "contracts", "layouts", name + ".json")))
+    ver = L.get("version", 0)
+    out = ["// generated by tools/layouts.py from contracts/layouts/%s.json -- %s" % (name, L["_source"]), "verus! {"]
+    for part in L["parts"]:
+        out += gen_part(name, part, L[part], ver, lemmas, append)
     out.append("} // verus!")
     return "\n".join(out) + "\n"
 
 
 if __name__ == "__main__":
     import sys
-    print(gen(sys.argv[1]))
+    print(gen(sys.argv[1], len(sys.argv) > 2))
